@@ -140,7 +140,7 @@ func propFaultHistory(t *rapid.T) {
 		if neg {
 			wid ^= 1
 		}
-		got, err := hedged(objs[obj], secec.RFC6979SHA256(), digest)
+		got, err := hedged(objs[obj], hoistedRFC6979, digest)
 		if err != nil {
 			note("%s: RFC 6979 SignRaw failed: %v", ctx, err)
 		} else if got.r.Cmp(wr) != 0 || got.s.Cmp(ws) != 0 || int(got.v) != wid {
